@@ -99,7 +99,7 @@ Lemma release_lease_other p sl s sl' t :
 Proof.
   intros Hl Hn. unfold pool_release.
   destruct (lease_of p sl) as [o|] eqn:E; [|exact Hl].
-  simpl owner_ok. destruct (o =? s) eqn:Eo; [|exact Hl].
+  unfold owner_ok, Repaired; cbn [d2]. destruct (o =? s) eqn:Eo; [|exact Hl].
   apply N.eqb_eq in Eo; subst o.
   unfold lease_of; simpl.
   assert (sl <> sl') by (intros ->; rewrite Hl in E; inversion E; contradiction).
@@ -356,7 +356,7 @@ Lemma reserve_cont_ok f x vrf s r r' ok :
   reg_ok r -> In (r', ok) (reserve_cont Repaired f x vrf s r) ->
   step_ok anyone r r' /\ (ok = true -> owns r' f vrf x s).
 Proof.
-  intros Hok. unfold reserve_cont.
+  intros Hok. unfold reserve_cont. change (d5 Repaired) with false. cbv iota.
   destruct (filter (fun p => contains p x) (fam_pools f r)) as [|c cs] eqn:Ef.
   - assert (Hnone : forall p, In p (pools r) -> p_fam p = f -> slot_of (p_geom p) x = None).
     { intros p Hin Hf. pose proof (filter_nil_none _ _ Ef p) as H.
@@ -394,7 +394,8 @@ Qed.
 Lemma release_static_ok f x vrf s r :
   step_ok (other_than s) r (release_static Repaired f x vrf s r).
 Proof.
-  unfold release_static. destruct (sassoc (f, vrf, x) (statics r)) as [o|] eqn:Es; [|apply step_ok_refl].
+  unfold release_static. change (d5 Repaired) with false. cbv iota.
+  destruct (sassoc (f, vrf, x) (statics r)) as [o|] eqn:Es; [|apply step_ok_refl].
   destruct (o =? s) eqn:Eo; [|apply step_ok_refl]. apply N.eqb_eq in Eo; subst o.
   intros Hok. split; [exact Hok|split; [reflexivity|]].
   intros t f' v' x' Ht [Hl|[Hn Hs]]; [left; exact Hl|right]. split; [exact Hn|]. cbn [statics].
